@@ -64,6 +64,30 @@ thread_local! {
     static LAST_PANIC: RefCell<Option<PanicInfo>> = RefCell::new(None);
     static WANT_BT: Cell<bool> = Cell::new(false);
     static CATCH_DEPTH: Cell<u32> = Cell::new(0);
+    static WORK_EXCEEDED: Cell<bool> = Cell::new(false);
+    static FUEL_PER_OP: Cell<u64> = Cell::new(DEFAULT_FUEL);
+    static COUNTER_EXHAUSTED: Cell<bool> = Cell::new(false);
+}
+
+/// true (once) if Slot::fresh ran out of numbers in this thread (possible when the K2 stride
+/// seam makes every fresh call skip up to 1000 numbers)
+pub fn take_counter_exhausted() -> bool {
+    COUNTER_EXHAUSTED.with(|w| w.replace(false))
+}
+
+pub fn fuel_per_op() -> u64 {
+    let f = FUEL_PER_OP.with(|f| f.get());
+    if cfg!(feature = "checks") {
+        f.min(2_500)
+    } else {
+        f
+    }
+}
+
+/// true (once) if a library call of this thread ran into the work budget: the run is then
+/// discarded as too expensive, whatever else it reported.
+pub fn take_work_exceeded() -> bool {
+    WORK_EXCEEDED.with(|w| w.replace(false))
 }
 
 static HOOK: Once = Once::new();
@@ -82,6 +106,18 @@ pub fn install_panic_hook() {
                 .location()
                 .map(|l| format!("{}:{}", l.file(), l.line()))
                 .unwrap_or_default();
+            if msg.contains("fresh slot counter exhausted") {
+                COUNTER_EXHAUSTED.with(|w| w.set(true));
+            }
+            // with the `checks` feature every rebuild step runs the O(n) consistency check; long
+            // rebuilds are cut off early there and count as "too expensive", not as non-termination
+            // (the same run is judged with the full fuel in the default build)
+            if cfg!(feature = "checks") && msg.contains("fuel exhausted") {
+                WORK_EXCEEDED.with(|w| w.set(true));
+            }
+            if msg.contains("work budget exceeded") {
+                WORK_EXCEEDED.with(|w| w.set(true));
+            }
             if CATCH_DEPTH.with(|d| d.get()) == 0 {
                 // not inside exec::catch: a harness panic. Make it visible.
                 eprintln!("HARNESS PANIC: {msg} at {loc}");
@@ -163,7 +199,9 @@ pub struct Knobs {
     pub fuel: u64,
 }
 
-pub const DEFAULT_FUEL: u64 = 200_000;
+pub const DEFAULT_FUEL: u64 = 20_000_000;
+/// iterations of the combinatorial variant / match loops per operation
+pub const DEFAULT_WORK: u64 = 300_000;
 
 #[cfg(slotted_egraphs_verif)]
 pub mod seam {
@@ -171,6 +209,7 @@ pub mod seam {
     use slotted_egraphs::verif;
     pub const GUARD_ON: bool = true;
     pub fn apply(k: &Knobs) {
+        super::FUEL_PER_OP.with(|f| f.set(if k.fuel == 0 { super::DEFAULT_FUEL } else { k.fuel }));
         verif::reset_all();
         verif::set_hash_seed(k.hash_seed);
         verif::set_fresh_stride(k.stride_seed, k.stride_max);
@@ -180,10 +219,12 @@ pub mod seam {
         verif::set_hash_seed(s)
     }
     pub fn refuel(n: u64) {
-        verif::set_fuel(n)
+        verif::set_fuel(n);
+        verif::set_work_budget(super::DEFAULT_WORK);
     }
     pub fn unlimited_fuel() {
-        verif::set_fuel(u64::MAX)
+        verif::set_fuel(u64::MAX);
+        verif::set_work_budget(u64::MAX);
     }
     pub fn ticks() -> u64 {
         verif::ticks()
